@@ -240,7 +240,7 @@ def main(tier):
             if op.startswith("d2") and (not b.has_d2 or (tier == "quick" and b.dof > 8)):
                 continue
             jobs.append((job, (b, op, tier)))
-    run.extend(check.run_jobs(jobs, timeout=900 if tier == "quick" else 3600))
+    run.extend(check.run_jobs(jobs, timeout=900 if tier == "quick" else 1800))
     run.bounds += ["bundle shapes: " + ", ".join(b.name for b in sh)]
     run.assumptions += ["layer R", "parts are compared with the SAME library function instantiated on the part alone (direct-product structure); "
                         "that the parts themselves are right is C01-C05", "nested bundles are compared with the nested bundle as a part"]
